@@ -35,7 +35,15 @@ def check(ctx):
             s = rr.fault_site(pi)
             sites.setdefault((s[0], s[1]), set()).add(rr.show_key(rr.faulted_key(pi)))
     ctx.cov["callback_sites"] = len(sites)
-    ctx.floor("callback call sites made to raise", len(sites), 16)
+    import re as _re
+
+    kinds = set()
+    for func, w, per, pi in res:
+        if pi.fault is not None:
+            kinds.add((func, _re.sub(r"\[\d+\]", "[i]", rr.show_key(rr.faulted_key(pi)))))
+    ctx.cov["callback_kinds"] = len(kinds)
+    # (mode function, callback kind) pairs confirmed by hand on the pinned tree: 7 teleop + 10 autonomous + 5 disabled + 4 test
+    ctx.floor("(mode function, callback kind) pairs made to raise", len(kinds), 26)
     ctx.ok("C07.O1", f"{len(sites)} callback call sites: " + "; ".join(f"{k[0]}:{k[1]}" for k in sorted(sites)))
     keep = lambda k: k[0] in ("comp", "fbget", "set", "reset", "robot", "mode", "wait", "iter")
     n = rr.fault_skeleton_check(ctx, res, keep, "C07.O2", "callbacks of the iteration / transition")
@@ -97,7 +105,13 @@ def check(ctx):
     policies.append(("MagicRobot.onException", lambda it, ww: it.getattr(ww["robot"], "onException")))
     sel = [v for v in r.fields.values() if isinstance(v, Obj) and v.cls.name == "AutonomousModeSelector"]
     if sel:
-        policies.append(("AutonomousModeSelector._on_exception", lambda it, ww: it.getattr([v for v in ww["robot"].fields.values() if isinstance(v, Obj) and v.cls.name == "AutonomousModeSelector"][0], "_on_exception")))
+        import ast as _ast
+
+        # the selector's own default policy: its method(s) that re-raise the active exception (bare `raise`)
+        for mname, mf in sel[0].cls.ns.items():
+            node = getattr(mf, "node", None)
+            if node is not None and any(isinstance(x, _ast.Raise) and x.exc is None for x in _ast.walk(node)) and [a.arg for a in node.args.args][1:2] == ["forceReport"]:
+                policies.append((f"AutonomousModeSelector.{mname}", lambda it, ww, mname=mname: it.getattr([v for v in ww["robot"].fields.values() if isinstance(v, Obj) and v.cls.name == "AutonomousModeSelector"][0], mname)))
     for pname, getter in policies:
         for force in (False, True):
             def run(it, ww, getter=getter, force=force):
